@@ -41,6 +41,7 @@ type JobSpec struct {
 	Canon8    bool           `json:"canon8"`
 	CanonAll  bool           `json:"canon_all"`
 	NoModels  []string       `json:"no_models"`
+	Redirect  map[string]string `json:"redirect"` // callee full name -> harness function (same signature) that replaces it
 	ExpectSat []string       `json:"expect_sat"` // labels that must be violated (vacuity witnesses)
 }
 
@@ -108,6 +109,7 @@ type Config struct {
 	canon8  bool
 	noIndep bool
 	noModel map[string]bool
+	redirect map[string]*ssa.Function
 }
 
 func (c *Config) isTarget(p *ssa.Package) bool {
@@ -191,6 +193,7 @@ func (s *scheduler) done() {
 }
 
 func main() {
+	debug.SetGCPercent(400)
 	specPath := flag.String("spec", "", "spec file")
 	outPath := flag.String("out", "", "result file (default stdout)")
 	verbose := flag.Bool("v", false, "verbose")
@@ -400,6 +403,15 @@ func runPath(it *Interp, job *JobSpec, item workItem, sched *scheduler, res *Job
 	it.cfg.noMerge = job.NoMerge
 	it.cfg.canon8 = job.Canon8 || job.CanonAll
 	it.ctx.canonAll = job.CanonAll
+	it.cfg.redirect = map[string]*ssa.Function{}
+	for from, to := range job.Redirect {
+		f := pkg.Func(to)
+		if f == nil {
+			fmt.Fprintln(os.Stderr, "redirect target not found:", to)
+			continue
+		}
+		it.cfg.redirect[from] = f
+	}
 	it.cfg.noModel = map[string]bool{}
 	for _, m := range job.NoModels {
 		it.cfg.noModel[m] = true
